@@ -66,7 +66,7 @@ def class_sweep(chk, rng, per_vector, all_entry_points=False):
             if rng.random() < 0.3:
                 bufs.append(sweep.mutate(rng, sweep.mutate(rng, v)))
             bufs.append(bytes(rng.getrandbits(8) for _ in range(rng.randint(0, 10))))
-            bufs += sweep.directed(rng, v, siblings, 5 * per_vector, 32 if per_vector <= 6 else None)
+            bufs += sweep.directed(rng, v, siblings, 5 * per_vector, 48 if per_vector <= 6 else None)
             for b in bufs:
                 evals += 1
                 for ep, key, line, e in leaks(cls, b, all_entry_points):
